@@ -59,6 +59,10 @@ func (World) Generate(r *engine.RNG, tier string) *engine.Script {
 				"ReadKeysAndCert", "ReadDestination", "ReadMapping", "ReadCertificate", "NewKeyCertificate", "ReadOfflineSignature", "ReadI2PString", "ReadRouterIdentity"))
 		}
 		sh := a.Gen(r.Fork())
+		if sh != nil && (r.Chance(1, 4) || sh.Ref != 0 && r.Chance(1, 2)) {
+			// parsers do not verify: let the trailing signature look like more structure
+			sh.SigFill = r.PickInt(1, 1, 2, 3)
+		}
 		op := engine.Op{Op: "frame", Struct: a.Name, Shape: sh}
 		if mode == 1 {
 			op.N = []int64{int64(r.PickInt(0, 1, 2, 3, 8, 40, 64)), int64(r.Intn(6))}
@@ -186,6 +190,31 @@ func padding(f *frame, n int, kind int, seed uint64) ([]byte, string) {
 	}
 }
 
+// continuations are byte strings that look like more of the same structure:
+// the frame from the start of its last / first repeated element to its end, the
+// whole frame again, and filler. A parser that reads past the declared extent
+// finds acceptable bytes there.
+func continuations(fr *frame) [][]byte {
+	var out [][]byte
+	first, last := -1, -1
+	for _, fl := range fr.f.Fields {
+		if fl.Class == refmodel.ClsLease || fl.Class == refmodel.ClsEntry {
+			if first < 0 {
+				first = fl.Start
+			}
+			last = fl.Start
+		}
+	}
+	if last >= 0 {
+		out = append(out, cp(fr.w[last:]))
+		if first != last {
+			out = append(out, cp(fr.w[first:]))
+		}
+	}
+	out = append(out, cp(fr.w), make([]byte, 600))
+	return out
+}
+
 func (World) Execute(t *testing.T, s *engine.Script) *engine.Outcome {
 	o := engine.NewOutcome()
 	synctest.Test(t, func(t *testing.T) { execute(s, o) })
@@ -225,6 +254,27 @@ func execute(s *engine.Script, o *engine.Outcome) {
 			// been accepted is C02.
 			o.Probe("reference_frame_rejected:" + ad.Name)
 			o.FP.Step("rejected", i, ad.Name)
+			// ... but w followed by more bytes may be accepted (a parser with a
+			// minimum size, or one that reads past the structure): whatever is
+			// accepted must still consume exactly the declared extent, len(w).
+			for k, x := range continuations(fr) {
+				in := append(cp(fr.w), x...)
+				var r2 adapters.Result
+				if o.Guard("parse rejected-alone+continuation "+ad.Name, func() { r2 = ad.Parse(cp(in), fr.arg) }) || !r2.OK {
+					continue
+				}
+				o.Probe("rejected_alone_accepted_with_more_bytes")
+				where := fmt.Sprintf("continuation-%d", k)
+				if !isSuffix(r2.Rem, in) {
+					o.Violate("C03/remainder-not-a-suffix/"+ad.Name+"/"+where, "op %d %s: remainder of %d bytes is not a suffix of the %d-byte input", i, ad.Name, len(r2.Rem), len(in))
+				} else if consumed := len(in) - len(r2.Rem); consumed != len(fr.w) {
+					rel := "more"
+					if consumed < len(fr.w) {
+						rel = "less"
+					}
+					o.Violate("C03/extent/"+ad.Name+"/consumed-"+rel+"-than-extent/rejected-alone-"+where, "op %d %s: structure extent is %d bytes (rejected when given alone); followed by %d more bytes it is accepted and the parser consumed %d", i, ad.Name, len(fr.w), len(x), consumed)
+				}
+			}
 			continue
 		}
 		if !isSuffix(res.Rem, fr.w) {
